@@ -9,6 +9,7 @@ func init() {
 	vfHarnesses["VerifH_match_complete"] = VerifH_match_complete
 	vfHarnesses["VerifH_match_order"] = VerifH_match_order
 	vfHarnesses["VerifH_match_tokencap"] = VerifH_match_tokencap
+	vfHarnesses["VerifH_match_unicode"] = VerifH_match_unicode
 }
 
 type vfRule struct {
@@ -188,6 +189,11 @@ func VerifH_match_sound() {
 	b := vfBuild(vfRuleSets[si], vfIdentityOrder(len(vfRuleSets[si])))
 	verb := vfVerb()
 	route := vfRoute(vfBound(8, 10))
+	vfCheckSound(b, route, verb)
+}
+
+// vfCheckSound: whatever match dispatches is covered by a rule of that method (liberal ':').
+func vfCheckSound(b *vfBuilt, route, verb string) {
 	m, ps, err := b.root.match(route, verb)
 	if err != nil {
 		vfCover("not-dispatched")
@@ -220,6 +226,11 @@ func VerifH_match_complete() {
 	b := vfBuild(vfRuleSets[si], vfIdentityOrder(len(vfRuleSets[si])))
 	verb := vfVerb()
 	route := vfRoute(vfBound(8, 10))
+	vfCheckComplete(b, route, verb)
+}
+
+// vfCheckComplete: a strictly matching rule implies dispatch; literal beats wildcard.
+func vfCheckComplete(b *vfBuilt, route, verb string) {
 	segs, ok := refSplit(route)
 	if !ok {
 		return
@@ -332,4 +343,49 @@ func VerifH_match_tokencap() {
 	}
 	vfCheck(m != nil && len(ps) >= 1, "dispatched without a method or captures")
 	vfCover("dispatched")
+}
+
+// VerifH_match_unicode (C01, C02): templates and paths with multi-byte UTF-8 letters (2- and 3-byte
+// runes, concrete) around symbolic ASCII bytes: the lexer's multi-byte path, literal comparison and
+// captures of non-ASCII text; same soundness and completeness oracles.
+func VerifH_match_unicode() {
+	sets := [][]vfRule{
+		{{0, "GET", "/é/{f}"}, {1, "GET", "/é/日本"}},
+		{{0, "GET", "/{f=é/*}:vv"}, {1, "GET", "/é/{g}/日"}},
+		{{0, "GET", "/日本/**"}, {1, "GET", "/日本/é"}},
+	}
+	set := sets[vfChoice(len(sets))]
+	b := vfBuild(set, vfIdentityOrder(len(set)))
+	verb := vfVerb()
+	var prefix string
+	switch vfChoice(6) {
+	case 0:
+		prefix = "/é/"
+	case 1:
+		prefix = "/é"
+	case 2:
+		prefix = "/é/日"
+	case 3:
+		prefix = "/日本/"
+	case 4:
+		prefix = "/é/é"
+	default:
+		prefix = "/"
+	}
+	tail := vfAsciiString(vfLen(vfBound(3, 5)))
+	suffix := ""
+	switch vfChoice(4) {
+	case 1:
+		suffix = "本"
+	case 2:
+		suffix = "/日"
+	case 3:
+		suffix = "é:vv"
+	}
+	route := prefix + tail + suffix
+	vfCheckSound(b, route, verb)
+	vfCheckComplete(b, route, verb)
+	if len(suffix) > 0 {
+		vfCover("unicode-suffix")
+	}
 }
